@@ -269,3 +269,18 @@ package fastaio
 //@   loop 1:
 //@     invariant counting[136] == count(k, 0, range_i, EFR.Seq[k] == 136) && counting[24] == count(k, 0, range_i, EFR.Seq[k] == 24) && counting[72] == count(k, 0, range_i, EFR.Seq[k] == 72) && counting[40] == count(k, 0, range_i, EFR.Seq[k] == 40)
 //@   ensures EFR.Count_A == count(k, 0, len(EFR.Seq), EFR.Seq[k] == 136) && EFR.Count_T == count(k, 0, len(EFR.Seq), EFR.Seq[k] == 24) && EFR.Count_G == count(k, 0, len(EFR.Seq), EFR.Seq[k] == 72) && EFR.Count_C == count(k, 0, len(EFR.Seq), EFR.Seq[k] == 40)
+
+//@ # C02/C11 helpers used by the entry points: decoding an encoded record gives one symbol per code (for the codes the
+//@ # readers produce), keeping ID, description and index; degapping removes exactly the '-' characters, in order.
+//@ func EncodedFastaRecord.Decode
+//@   loop 1:
+//@     invariant implies(forall(j, 0, len(EFR.Seq), isCode(EFR.Seq[j])), len(seq) == range_i && forall(j, 0, range_i, seq[j] == DA[EFR.Seq[j]][0]))
+//@   ensures [fields] result.ID == EFR.ID && result.Description == EFR.Description && result.Idx == EFR.Idx
+//@   ensures [len] implies(forall(j, 0, len(EFR.Seq), isCode(EFR.Seq[j])), len(result.Seq) == len(EFR.Seq))
+//@ func FastaRecord.Degap
+//@   loop 1:
+//@     invariant len(t) == count(k, 0, range_i, int(FR.Seq[k]) != 45)
+//@     invariant forall(j, 0, range_i, implies(int(FR.Seq[j]) != 45, t[count(k, 0, j, int(FR.Seq[k]) != 45)] == FR.Seq[j]))
+//@   ensures [fields] result.ID == FR.ID && result.Description == FR.Description && result.Idx == FR.Idx
+//@   ensures [len] len(result.Seq) == count(k, 0, len(FR.Seq), int(FR.Seq[k]) != 45)
+//@   ensures [content] forall(j, 0, len(FR.Seq), implies(int(FR.Seq[j]) != 45, result.Seq[count(k, 0, j, int(FR.Seq[k]) != 45)] == FR.Seq[j]))
